@@ -420,6 +420,59 @@ def rule_jnz(chk, prog, tier):
     r.exhaustive = True
 
 
+# ------------------------------------------------------------------ C01.e2 funcjnz call sites
+
+def _etext(n):
+    n = facts.unwrap_all(n)
+    k = n.get('kind')
+    if k == 'DeclRefExpr': return n['referencedDecl'].get('name', '?')
+    if k == 'MemberExpr': return _etext(n['inner'][0]) + ('->' if n.get('isArrow') else '.') + n.get('name', '')
+    if k == 'ArraySubscriptExpr': return '%s[%s]' % (_etext(n['inner'][0]), _etext(n['inner'][1]))
+    if k == 'IntegerLiteral': return str(n.get('value'))
+    if k == 'CharacterLiteral': return "'%s'" % chr(n.get('value', 0))
+    if k == 'GNUNullExpr': return 'NULL'
+    if k == 'UnaryOperator': return n.get('opcode', '') + _etext(n['inner'][0])
+    if k == 'CallExpr': return '%s(%s)' % (_etext(n['inner'][0]), ','.join(_etext(a) for a in n['inner'][1:]))
+    if k == 'ConditionalOperator': return '(%s?%s:%s)' % tuple(_etext(c) for c in n['inner'])
+    if k in ('BinaryOperator',): return '(%s%s%s)' % (_etext(n['inner'][0]), n.get('opcode'), _etext(n['inner'][1]))
+    return k or '?'
+
+
+def rule_jnz_sites(chk, prog, tier):
+    r = chk.rule('C01.e2', 'every conditional jump is given the type of the very expression whose value it tests (so funcjnz can widen / compare it), or no type only for a word-class comparison result produced on the spot',
+                 floor=8, oracle='C11 6.8.4.1p2, 6.8.5p4, 6.5.13-15: the controlling value compares unequal to 0 in its own type')
+    from facts import walk
+    for fn in prog.all_funcs():
+        calls = [c for c in walk(fn) if c.get('kind') == 'CallExpr' and facts.unwrap_all(c['inner'][0]).get('referencedDecl', {}).get('name') == 'funcjnz']
+        if not calls or fn['name'] == 'funcjnz': continue
+        assigns = []
+        for n in walk(fn):
+            if n.get('kind') == 'BinaryOperator' and n.get('opcode') == '=':
+                lhs = facts.unwrap_all(n['inner'][0])
+                if lhs.get('kind') == 'DeclRefExpr':
+                    assigns.append(((n.get('line', 0), n.get('col', 0)), lhs['referencedDecl'].get('name'), n['inner'][1]))
+        def lastdef(var, pos):
+            c = [a for a in assigns if a[1] == var and a[0] < pos]
+            return max(c, key=lambda a: a[0])[2] if c else None
+        for c in calls:
+            pos = (c.get('line', 0), c.get('col', 0))
+            args = c['inner'][1:]
+            vt, tt = _etext(args[1]), _etext(args[2])
+            key = 'jnz-site:%s:%s,%s' % (fn['name'], vt, tt)
+            where = '%s:%s' % (fn['_file'], c.get('line'))
+            vdef = lastdef(vt, pos)
+            vdt = _etext(vdef) if vdef is not None else None
+            if tt in ('NULL', '0'):
+                ok = vdt is not None and vdt.startswith('funcinst(') and "'w'" in vdt.split(',')[2:3][0] if vdt and vdt.count(',') >= 2 else False
+                r.instance(bool(ok), key, where, 'no type is passed, so the value must be a word-class comparison result computed here; it is %s' % vdt)
+                continue
+            tdef = lastdef(tt, pos) if facts.unwrap_all(args[2]).get('kind') == 'DeclRefExpr' else args[2]
+            tdt = _etext(tdef) if tdef is not None else None
+            ok = vdt is not None and vdt.startswith('funcexpr(f,') and tdt is not None and tdt == vdt[len('funcexpr(f,'):-1] + '->type'
+            r.instance(ok, key, where, 'the jump tests %s = %s but is told its type is %s = %s' % (vt, vdt, tt, tdt))
+    r.exhaustive = True
+
+
 # ------------------------------------------------------------------ C01.g bit-fields
 
 def rule_bits(chk, prog, tier):
@@ -653,6 +706,9 @@ def run(chk, tier):
     chk.guard('C01.c', lambda: rule_qbetype(chk, prog, tier))
     chk.guard('C01.d', lambda: rule_exhaustive(chk, prog, tier))
     chk.guard('C01.e', lambda: rule_jnz(chk, prog, tier))
+    chk.guard('C01.e2', lambda: rule_jnz_sites(chk, prog, tier))
     chk.guard('C01.g', lambda: rule_bits(chk, prog, tier))
     chk.guard('C01.h', lambda: rule_ldouble(chk, prog, tier))
     chk.guard('C01.i', lambda: rule_designators(chk, prog, tier))
+    from props import c01f
+    chk.guard('C01.f', lambda: c01f.rule_statements(chk, prog, tier))
